@@ -10,6 +10,7 @@ def opCallOutcome (j : Json) : Json :=
       ct := String.ofList (getStr j "ct")
       pathDot := getBool j "path_dot"
       negZeroQuery := getBool j "neg_zero_query"
+      respEmpty := getBool j "resp_empty"
       requiredZero := (getArr j "required_zero").map fun x => match x with | Json.bool b => b | _ => false }
   Json.mkObj [("outcome", Json.str (callOutcome c)),
               ("client_req_codec", Json.str (clientReqCodec c.ct)), ("server_req_codec", Json.str (serverReqCodec c.ct)),
